@@ -283,6 +283,20 @@ fn main() {
     });
     sink.merge(sb);
     sink.bump("malformed-record terminators", nbad as u64);
+    // buffers of many records (5..1000), alone and followed by a truncated record
+    let many = cat::many_records();
+    let nmany = many.len();
+    let sm = par_run(run.threads, many.len(), |i, sink| {
+        let (_, b, _) = &many[i];
+        check(b, sink);
+        let mut c = b.clone();
+        c.extend([0x15, 0x03, 0x03, 0x00, 0x02, 0x01]);
+        check(&c, sink);
+        c.truncate(b.len() + 3);
+        check(&c, sink);
+    });
+    sink.merge(sm);
+    sink.bump("many-record buffers", nmany as u64);
     // every short string over a record-oriented alphabet
     let a = Alpha::new(
         &[&[0x14, 0x15, 0x16, 0x17, 0x18, 0xff], &[0x03], &[0x03], &[0x00, 0x41], &[0x00, 0x01, 0x02, 0x04, 0x05]],
@@ -328,7 +342,7 @@ fn main() {
     cov.insert("terminators".into(), json!(terms.len()));
     cov.insert("concatenations".into(), json!(nseq));
     cov.insert("rule".into(), json!(format!(
-        "every concatenation of 0..{} records from a {}-record catalogue (8 TLS, 4 DTLS) followed by each of {} terminators (nothing, strict prefixes of valid records, oversize headers, valid header with bad content, unknown type, garbage), plus every single lying-length deviation of records carrying each kind of catalogue handshake message (TLS and DTLS) after 0..2 valid records, through tls_parser_many and parse_dtls_plaintext_records; every string of length <= {} (TLS) / <= {} (DTLS) over record-oriented positional alphabets. Oracle: the explicit loop over the real single-record parser (same records by value and slice position, remainder = first failing record, failure iff the first record fails); tls_parser == parse_tls_plaintext on every buffer. Non-trivial: every buffer",
+        "every concatenation of 0..{} records from a {}-record catalogue (8 TLS, 4 DTLS) followed by each of {} terminators (nothing, strict prefixes of valid records, oversize headers, valid header with bad content, unknown type, garbage), plus every single lying-length deviation of records carrying each kind of catalogue handshake message (TLS and DTLS) after 0..2 valid records, through tls_parser_many and parse_dtls_plaintext_records; buffers of 5 / 6 / 7 / 8 / 15 / 100 / 255 / 256 / 257 / 1000 minimal records of 5 kinds; every string of length <= {} (TLS) / <= {} (DTLS) over record-oriented positional alphabets. Oracle: the explicit loop over the real single-record parser (same records by value and slice position, remainder = first failing record, failure iff the first record fails); tls_parser == parse_tls_plaintext on every buffer. Non-trivial: every buffer",
         k, nrec, terms.len(), n, nd)));
     let code = run.finish(&sink, cov, vec!["differential oracle: the single-record parsers are taken as given here (their correctness is C02/C03/C10)".into()]);
     std::process::exit(code);
